@@ -4,6 +4,7 @@ package main
 
 import (
 	"fmt"
+	"govc/internal/vc"
 	"os"
 	"sort"
 
@@ -17,7 +18,7 @@ func usage() {
   govc ssa <key>                  print the SSA of a function
   govc check <ID> [--tier quick|thorough]   decide a property (claims/<ID>.json)
   govc vc <key>... [--all]        run the proof tier on some functions (development)
-  govc selftest                   must-fail corpus`)
+  govc names                      record variable names of the functions under contract (claims/names.json)`)
 	os.Exit(2)
 }
 
@@ -56,6 +57,20 @@ func main() {
 			}
 			fn.WriteTo(os.Stdout)
 		}
+	case "names":
+		// records the variable skeletons of the functions under contract (reference tree) in claims/names.json
+		env := core.EnvFromOS("dev")
+		p, err := load.Load(env.Repo)
+		if err != nil {
+			fmt.Fprintln(os.Stderr, "load:", err)
+			os.Exit(2)
+		}
+		n, err := vc.NewEngine(env, p).WriteNames()
+		if err != nil {
+			fmt.Fprintln(os.Stderr, err)
+			os.Exit(2)
+		}
+		fmt.Println("recorded", n, "functions")
 	case "check":
 		os.Exit(cmdCheck(os.Args[2:]))
 	case "vc":
